@@ -17,7 +17,8 @@ SUP_INIT = {"none": ("None", 2, False), "run": ("(Some 4)", 2, False), "draining
             "stopping": ("(Some 4)", 5, False), "dead": ("(Some 4)", 6, True)}
 EFF = {"g": "EGate", "j1": "EJoin 1", "j2": "EJoin 2", "m1": "EMon 1", "m2": "EMon 2", "l": "ELinkTo 8",
        "a": "EAdopt 7", "s": "ESend"}
-FIN = {"ok": "ROk", "err": "RErr", "panic": "RPanic"}
+FIN = {"ok": "ROk", "err": "RErr", "panic": "RPanic", "bpanic": "RPanic"}
+SYNC_EFFS = ("j1", "j2", "m1", "m2", "l", "s")
 
 
 def scn_line(s, idx):
@@ -204,6 +205,9 @@ def gen_systematic(rng):
         for sup in sups:
             for fin in ("ok", "err", "panic"):
                 out.append(build(rng, kind, True, False, sup, script, fin, "none", 0, env=1))
+            # pre_start panics while BUILDING its future: the panic unwinds through the start future
+            for scr in (["j1", "m2", "l"], []):
+                out.append(build(rng, kind, True, False, sup, scr, "bpanic", "none", 0, env=1))
             for cause in ("kill", "abort", "drain") + (("supkill", "supstop") if linked and sup == "run" else ()):
                 for cut in (0, 1):
                     out.append(build(rng, kind, False, False, sup, script, "ok", cause, cut, env=1))
@@ -245,7 +249,10 @@ def gen_random(rng, count):
             sup = "run"
         ngates = rng.randint(0, 3)
         script = rand_script(rng, ngates)
-        fin = rng.choice(["ok", "ok", "err", "panic"])
+        fin = rng.choice(["ok", "ok", "err", "panic", "bpanic"])
+        if fin == "bpanic":
+            script = [e for e in script if e in SYNC_EFFS]
+            ngates = 0
         causes = ["none", "kill", "abort", "drain"] + (["supkill", "supstop"] if linked and sup == "run" and queued != "supkill" else [])
         cause = rng.choice(causes) if ngates else "none"
         cut = rng.randrange(ngates) if ngates else 0
